@@ -70,7 +70,7 @@ func checkDecoded(c decodedCase) ev.Outcome {
 		return o
 	}
 	o.Class = fmt.Sprintf("format=%d/n>=64=%v", format, len(c.V) >= 64)
-	o.NonTrivial = format == 4 && len(c.V) < 64
+	o.NonTrivial = format == 4
 	z := 1.0
 	if c.South {
 		z = -1
@@ -108,8 +108,23 @@ func checkDecoded(c decodedCase) ev.Outcome {
 			return o
 		}
 	}
+	// the decoded loop's bound for sub-regions (Loop.Contains rejects on it first):
+	// a small loop about the centre, well inside the star (radius 5 of at least 25
+	// degrees), is contained by the decoded loop and polygon as by the original
+	inner := s2.RegularLoop(c.Inside.Pt(), 5*s2Degree, 8)
+	ip := s2.PolygonFromLoops([]*s2.Loop{s2.RegularLoop(c.Inside.Pt(), 5*s2Degree, 8)})
+	if !l.Contains(inner) {
+		o.Skip = true // (never observed: the construction keeps 20 degrees of room)
+		return o
+	}
+	if !q.Loop(0).Contains(inner) || !q.Contains(ip) || !q.Intersects(ip) {
+		o.Err = fmt.Sprintf("the decoded loop / polygon does not contain / intersect a 5-degree loop about its centre that the original contains (Loop.Contains=%v Polygon.Contains=%v Intersects=%v; format %d, %d vertices)", q.Loop(0).Contains(inner), q.Contains(ip), q.Intersects(ip), format, len(c.V))
+		return o
+	}
 	return o
 }
+
+const s2Degree = math.Pi / 180
 
 func isVertexOf(v []gen.P, p s2.Point) bool {
 	for _, q := range v {
@@ -122,6 +137,6 @@ func isVertexOf(v []gen.P, p s2.Point) bool {
 
 func init() {
 	ev.Define("decoded_polar_bounds", ev.Options{
-		Rule:  "star loops of 8..100 vertices (mass on 63/64/65) around a point within 20 degrees of a pole, radii 25..60 degrees (they contain the pole), vertices snapped to leaf-cell centres so that the compressed polygon format is chosen; the polygon is encoded and decoded, and the DECODED value's RectBound (polygon and loop), CapBound and ContainsPoint must contain every probe that exact crossing parity puts inside (the pole, the centre, points between them, vertices). Non-trivial: compressed format with fewer than 64 vertices (the decoder recomputes the bound).",
+		Rule:  "star loops of 8..100 vertices (mass on 63/64/65) around a point within 20 degrees of a pole, radii 25..60 degrees (they contain the pole), vertices snapped to leaf-cell centres so that the compressed polygon format is chosen; the polygon is encoded and decoded, and the DECODED value's RectBound (polygon and loop), CapBound and ContainsPoint must contain every probe that exact crossing parity puts inside (the pole, the centre, points between them, vertices). The decoded loop and polygon must also contain a 5-degree loop about the centre (the sub-region bound, which for 64 or more vertices is derived from the stored bound). Non-trivial: compressed format.",
 		Quick: 8000, Thorough: 200000}, genDecoded, checkDecoded)
 }
